@@ -108,31 +108,44 @@ def binding_program(rng):
     initialiser; every fresh variable is folded into the global g0 right after its declaration and left non-zero afterwards, so a declaration that binds
     to an older variable of the same name (or keeps its value) changes the result"""
     r = rng
-    pool = ["a", "b", "c", "d"]
-    def stmts(depth, vis):
-        out, vis = [], list(vis)
-        for _ in range(r.choice([2, 3])):
-            cand = [n for n in pool if n not in vis]
-            c = r.random()
-            if (depth <= 0 or c < 0.4) and cand:
-                x = r.choice(cand)
-                out.append(Decl("int", x, None if r.random() < 0.55 else B("+", V(r.choice(vis)), I(r.randrange(1, 4))))); vis.append(x)
-                out.append(ES(A(V("g0"), B("%", B("+", B("*", V("g0"), I(7)), V(x)), I(1000003)))))
-                out.append(ES(A(V(x), B("+", V(x), I(r.randrange(1, 9))))))
-            elif depth > 0 and c < 0.55:
-                out.append(Block(stmts(depth - 1, vis)))
-            elif depth > 0 and c < 0.75:
-                out.append(If(B("<", V(r.choice(vis)), I(r.randrange(1, 6))), Block(stmts(depth - 1, vis)), Block(stmts(depth - 1, vis)) if r.random() < 0.7 else None))
-            elif depth > 0 and cand:
-                x = r.choice(cand)
-                out.append(For(Decl("int", x, I(0)), B("<", V(x), I(2)), Pre("++", x), Block(stmts(depth - 1, vis + [x]))))
-            else:
-                out.append(ES(A(V("g0"), B("%", B("+", B("*", V("g0"), I(3)), V(r.choice(vis))), I(1000003)))))
-        return out
-    body = stmts(3, ["g0", "p0", "p1"])
-    body.append(Ret(B("+", V("g0"), V("p0"))))
-    m = Module([Global("int", "g0"), Func("f", [Arg("int", "p0"), Arg("int", "p1")], "int", Block(body), export=True)])
-    calls = [{"fn": "f", "args": {"p0": r.randrange(0, 6), "p1": r.randrange(0, 6)}, "globals": {"g0": r.randrange(0, 5)} if k == 0 else {}, "read_globals": ["g0"]} for k in range(2)]
+    names = ["a", "b", "c", "d", "p0", "p1"]
+    def function(fname, params):
+        pool = [n for n in names if n not in params]
+        def stmts(depth, vis):
+            out, vis = [], list(vis)
+            for _ in range(r.choice([2, 3])):
+                cand = [n for n in pool if n not in vis]
+                c = r.random()
+                if (depth <= 0 or c < 0.4) and cand:
+                    x = r.choice(cand)
+                    out.append(Decl("int", x, None if r.random() < 0.55 else B("+", V(r.choice(vis)), I(r.randrange(1, 4))))); vis.append(x)
+                    out.append(ES(A(V("g0"), B("%", B("+", B("*", V("g0"), I(7)), V(x)), I(1000003)))))
+                    out.append(ES(A(V(x), B("+", V(x), I(r.randrange(1, 9))))))
+                elif depth > 0 and c < 0.55:
+                    out.append(Block(stmts(depth - 1, vis)))
+                elif depth > 0 and c < 0.75:
+                    out.append(If(B("<", V(r.choice(vis)), I(r.randrange(1, 6))), Block(stmts(depth - 1, vis)), Block(stmts(depth - 1, vis)) if r.random() < 0.7 else None))
+                elif depth > 0 and cand:
+                    x = r.choice(cand)
+                    out.append(For(Decl("int", x, I(0)), B("<", V(x), I(2)), Pre("++", x), Block(stmts(depth - 1, vis + [x]))))
+                else:
+                    out.append(ES(A(V("g0"), B("%", B("+", B("*", V("g0"), I(3)), V(r.choice(vis))), I(1000003)))))
+            return out
+        body = stmts(3, ["g0"] + params)
+        body.append(Ret(B("+", V("g0"), B("*", V(params[0]), B("+", V(params[1]), I(2))))))
+        return Func(fname, [Arg("int", q) for q in params], "int", Block(body), export=True)
+    # several functions: the locals of one are the parameters of another (every function has its own table of names)
+    sigs = [("f", ["p0", "p1"])]
+    if r.random() < 0.6:
+        sigs.append(("h", r.sample(["a", "b", "c", "d"], 2)))
+    if r.random() < 0.3:
+        sigs.append(("k", r.sample(names, 2)))
+    r.shuffle(sigs)
+    m = Module([Global("int", "g0")] + [function(n, ps) for n, ps in sigs])
+    calls = []
+    for k in range(2 if len(sigs) == 1 else 4):
+        n, ps = sigs[k % len(sigs)]
+        calls.append({"fn": n, "args": {q: r.randrange(0, 6) for q in ps}, "globals": {"g0": r.randrange(0, 5)} if k == 0 else {}, "read_globals": ["g0"]})
     return m, calls
 
 
